@@ -1,0 +1,31 @@
+//go:build verif
+
+package p2p
+
+// This file contains no code. It carries the machine-checked contracts (structured //@ comments)
+// that /verif/govc binds to the functions of this package when built with -tags verif.
+
+// ---- ExchangeServer (C10)
+
+//@ func (*ExchangeServer).handleRangeRequest(serv, ctx, from, to)
+//@   props C10
+//@   requires ctxBounded(ctx)
+//@   modifies ghost:storeReads, $now
+//@   ensures [C10] mixup: from >= to ==> errors.Is(result1, header.ErrRangeMixUp) && storeReads == old(storeReads)
+//@   ensures [C10] limit: from != 0 && from < to && to - from > header.MaxRangeRequestSize ==> errors.Is(result1, header.ErrHeadersLimitExceeded) && storeReads == old(storeReads)
+//@   ensures [C10] bounded-work: storeReads - old(storeReads) <= header.MaxRangeRequestSize && (from < to ==> storeReads - old(storeReads) <= to - from)
+//@   ensures [C10] head-request: from == 0 && from < to && result1 == nil ==> len(result0) == 1 && result0[0] == chainAt(storeHeadH)
+//@   ensures [C10] true-data: from != 0 && result1 == nil ==> len(result0) >= 1 && len(result0) <= to - from && (forall i int :: 0 <= i && i < len(result0) ==> result0[i] == chainAt(from + i))
+//@   ensures [C10] prefix-only-past-head: from != 0 && result1 == nil && len(result0) < to - from ==> to - 1 > storeHeadH && from + len(result0) == storeHeadH + 1
+
+//@ func (*ExchangeServer).handleHeadRequest(serv, ctx)
+//@   props C10
+//@   requires ctxBounded(ctx)
+//@   modifies $now
+//@   ensures [C10] head: result1 == nil ==> len(result0) == 1 && result0[0] == chainAt(storeHeadH)
+
+//@ func (*ExchangeServer).handleRequestByHash(serv, ctx, hash)
+//@   props C10
+//@   requires ctxBounded(ctx)
+//@   modifies $now
+//@   ensures [C10] by-hash: result1 == nil ==> len(result0) == 1 && result0[0].Hash() == hash
